@@ -327,8 +327,17 @@ func progStopEnable() *Program {
 	}}
 }
 
+// deployment configuration that depends on another step
+func progDeployDep() *Program {
+	return &Program{Name: "deploydep", Steps: []Step{
+		pstep("p", O("v", E("$.input.n"))),
+		{ID: "a", Input: O("v", I(1)), Deploy: O("deployer_name", Str("scripted"), "tag", E("$.steps.p.outputs.success.s"))},
+	}, Outputs: []Output{{"success", O("r", E(sv("a")))}}}
+}
+
 func catalogue() []*Program {
 	return []*Program{
+		progDeployDep(),
 		progSumExpr(), progSumExpr2(), progSumInts(), progStopEnable(),
 		progSingle(), progChain(2), progChain(3), progFanIn(), progDiamond(), progMultiOut(), progMultiOut2(),
 		progWaitStarted(), progEnabled(), progEnabledChain(), progStopInput(), progStopProducer(), progDeployExpr(),
@@ -350,6 +359,7 @@ var altsBasic = []stepAlt{
 	{"err", env.StepScript{Run: env.RunErrorOut}},
 	{"crash", env.StepScript{Run: env.RunCrash}},
 	{"nodeploy", env.StepScript{Deploy: env.DeployFail}},
+	{"slowdeploy", env.StepScript{DeployMS: 40, DeployIgnoreCtx: true}},
 }
 
 var altsMore = []stepAlt{
@@ -357,7 +367,7 @@ var altsMore = []stepAlt{
 	{"hangx", env.StepScript{Run: env.RunHangIgnore}},
 	{"mismatch", env.StepScript{Run: env.RunSchemaMismatch}},
 	{"deployhang", env.StepScript{Deploy: env.DeployHang}},
-	{"slow", env.StepScript{RunMS: 20, DeployMS: 3}},
+	{"slow", env.StepScript{RunMS: 35, DeployMS: 3}},
 }
 
 // pluginIDs lists the plugin step ids of a program including sub-workflows.
